@@ -12,7 +12,7 @@ from . import REPO, VERIF
 from . import findings as findings_mod
 
 PY = sys.executable
-OUT = os.path.join(VERIF, "out")
+OUT = os.environ.get("PVM_OUT") or os.path.join(VERIF, "out")   # PVM_OUT: scratch evaluations (tools/seedeval.sh, mutant.sh) keep their replays apart
 
 
 def _env():
